@@ -249,6 +249,8 @@ def correspondence(ctx):
 
     ops, aux = [], []
     for a, b, g, tag in grid:
+        if tag in ('near0', 'nearpi') and 8e-8 < min(b, PI - b) < 1.3e-7:
+            continue   # x22=|a|^2-|b|^2 is recomputed from (a,b): one ulp there decides the branch at beta ~ zero_eps
         for sgn in (1, -1):
             U = sgn * (ref_su2(a, b, g) if tag != 'betapi' else ref_su2(a, 0, 0) @ np.array([[0, -1], [1, 0]]) @ ref_su2(0, 0, g))
             ops.append('C15 su2ang ' + ' '.join(f2b(x) for x in (U[0, 0].real, U[0, 0].imag, U[0, 1].real, U[0, 1].imag)) + ' ' + f2b(EPS))
@@ -264,7 +266,9 @@ def correspondence(ctx):
         V0, V1 = ref_su2(al, be, ga), ref_su2(ma, mbeta, mg)
         # the 4pi branch of gamma is decided by the sign of Re(exp(i(al+ga)/2) a) = +-cos(beta/2): ill-conditioned only at beta ~ pi
         d = np.abs(V0 - V1).max() if be < PI - 1e-3 else min(np.abs(V0 - V1).max(), np.abs(V0 + V1).max())
-        ok = branch_of_beta(be) == mb[0] and abs(be - mbeta) <= 1e-12 and d <= 1e-9
+        # x22 = |a|^2-|b|^2 is recomputed by the model from (a,b): one ulp there moves arccos by ~1e-8 next to +-1
+        thr = branch_of_beta(be) != 'generic'
+        ok = branch_of_beta(be) == mb[0] and (abs(be - mbeta) <= 1e-12 or abs(math.cos(be) - math.cos(mbeta)) <= 1e-15) and d <= (2e-7 if thr else 1e-9)
         cmp(ctx, op, ok, mo, (al, be, ga)); ctx.count('su2ang-' + mb[0])
 
     # ---- mixed batches: the batched call against the model element by element ---------------------------------------
@@ -394,8 +398,8 @@ def probe(ctx):
         def f():
             return G.angle_to_su2(*G.su2_to_angle(U))
         V = guarded(f)
-        near = abs(abs(U[0, 0]) - 1) < 1e-13 or abs(U[0, 0]) < 1e-7
-        tol = 1e-6 if (near and tag in ('near0', 'nearpi')) else 1e-9
+        # inside the threshold region (|U00| or |U01| below ~zero_eps) the extraction is only accurate to ~zero_eps
+        tol = 1e-6 if (abs(U[0, 1]) < 2e-7 or abs(U[0, 0]) < 2e-7) else 1e-9
         if isinstance(V, str) or min(np.abs(V - U).max(), np.abs(V + U).max()) > tol:
             ctx.fail('su2-roundtrip', f'angle_to_su2(su2_to_angle(U)) != +-U ({tag}): ' + (V if isinstance(V, str) else f'{min(np.abs(V-U).max(), np.abs(V+U).max()):.3g}'),
                      dict(op='su2-roundtrip', U=[[x.real, x.imag] for x in U.reshape(-1)], tag=tag))
@@ -443,11 +447,18 @@ def probe(ctx):
                     return np.abs(D1 @ D2 - D12).max()
                 r = guarded(f)
                 if isinstance(r, str) or r > 1e-9:
-                    ctx.fail('irrep-hom-axis-aligned', f'get_su2_irrep(j2={j2}): D(U1 U2) != D(U1) D(U2) for axis-aligned U (su2_to_angle loses the sign of U when U[0,0]=0): {r}',
+                    ctx.fail('su2-sign-at-beta-pi/irrep-hom', f'get_su2_irrep(j2={j2}): D(U1 U2) != D(U1) D(U2) for axis-aligned U (su2_to_angle loses the sign of U when U[0,0]=0): {r}',
                              dict(op='irrep-hom', j2=j2, U1=[[x.real, x.imag] for x in U1.reshape(-1)], U2=[[x.real, x.imag] for x in U2.reshape(-1)]))
                 else:
                     ctx.probe_ok(('irrep-ax', j2))
-    # j2=1 is the defining representation
+    # j2=1 is the defining representation, also at U[0,0]=0 (beta=pi), where the 4pi branch of gamma cannot be read off U[0,0]
+    for U in [np.array([[0, 1], [-1, 0]], dtype=np.complex128), np.array([[0, -1], [1, 0]], dtype=np.complex128), np.array([[0, 1j], [1j, 0]])]:
+        r = guarded(lambda: np.abs(G.get_su2_irrep(1, U) - U).max())
+        if isinstance(r, str) or r > 1e-9:
+            ctx.fail('su2-sign-at-beta-pi', f'get_su2_irrep(1, U) = -U for U={U.tolist()} (su2_to_angle decides the 4pi branch of gamma from Re(e^(i(a+g)/2) U00), which is 0 when beta=pi): deviation {r}',
+                     dict(op='irrep1', U=[[x.real, x.imag] for x in U.reshape(-1)]))
+        else:
+            ctx.probe_ok(('irrep1-betapi', hash(U.tobytes())))
     for U in haar[:6]:
         r = guarded(lambda: np.abs(G.get_su2_irrep(1, U) - U).max())
         if isinstance(r, str) or r > 1e-9:
